@@ -3,6 +3,7 @@ package rules
 import (
 	"fmt"
 	"go/types"
+	"morlockverif/checker/internal/core"
 	"sort"
 	"strings"
 
@@ -66,7 +67,7 @@ func shortFuncName(f *ssa.Function) string {
 			t = pt.Elem()
 		}
 		if n, ok := t.(*types.Named); ok {
-			return n.Obj().Name() + "." + f.Name()
+			return core.ObjName(n.Obj()) + "." + f.Name()
 		}
 	}
 	if f.Pkg != nil {
